@@ -114,3 +114,22 @@ package os
 //@                    err.(*stdos.LinkError).Old == osPathOf(fs, "linux", '/', o) && err.(*stdos.LinkError).New == osPathOf(fs, "linux", '/', n),
 //@                    isLinkError(r) && oldOf(r) == o && newOf(r) == n && innerErr(r) == err.(*stdos.LinkError).Err)))
 //@   nopanic
+
+// NewFS: the unrooted file system (root "/" resp. the default volume); establishes the type invariant.
+//@ func NewFS() (fs *FS)
+//@   props C09
+//@   ensures "unrooted" fs != nil && fresh(fs) && fs.root == "" && fs.volumeName == ""
+//@   nopanic
+
+// SubVolume: refused on a rooted or already volume-bound FS; otherwise a new unrooted FS bound to the volume
+// (the type invariant of the result rests on the assumed shape of filepath.VolumeName's result).
+//@ extern path/filepath.VolumeName(p string) (v string)
+//@   pure
+//@   ensures "prefix" hasPrefix(p, v) && !hasSuffix(v, "/") && !hasSuffix(v, "\\")
+//@ func (fs *FS) SubVolume(volumeName string) (r hackpadfs.FS, err error)
+//@   props C09 C05
+//@   requires fs != nil
+//@   ensures "refused" [C05] implies(fs.root != "" || fs.volumeName != "", r == nil && isPathError(err) && pathOf(err) == volumeName && opOf(err) == "subvolume")
+//@   ensures "error-path" [C05] implies(err != nil, r == nil && isPathError(err) && pathOf(err) == volumeName && opOf(err) == "subvolume")
+//@   ensures "bound" [C09] implies(err == nil, isType(r, *FS) && r.(*FS) != nil && fresh(r.(*FS)) && r.(*FS).root == "" && r.(*FS).volumeName == volumeName)
+//@   nopanic
